@@ -410,9 +410,18 @@ def run_property(prop, tier):
     floor = spec.get("floor_" + tier, spec.get("floor", 0))
     wall = time.time() - t0
     status = 0
+    seen = set()
+    shown = 0
     for path, msg in violations:
-        print("VIOLATION property=%s replay=%s" % (prop, path))
-        print("  " + msg[:1000])
+        if path in seen:
+            continue
+        seen.add(path)
+        if shown < 6:
+            print("VIOLATION property=%s replay=%s" % (prop, path))
+            print("  " + msg[:1000])
+        shown += 1
+    if shown > 6:
+        print("  (... %d further distinct failing cases not listed)" % (shown - 6))
     if violations:
         status = 1
     for f in opens:
